@@ -46,6 +46,14 @@ def gen_cases(ctx):
     for nm in pair_names:
         for a, b in itertools.product(ARGS, repeat=2):
             cases.append(("pos", nm, (a, b), nm + "(" + a + ", " + b + ")"))
+    # other namespaces whose segments are spelled like keywords / operators / literals (any letter case): accepted with any number of arguments
+    for nm in ["null.f", "true.check", "false.x", "all.items", "any.z", "Null.f", "TRUE.g", "not.f", "in.f", "eq.ne", "and.or", "my.null.f", "ns.true", "a.any", "geo.null.f",
+               "nullable.f", "anything.all", "duration.f", "geography.g", "e.e", "_.f"]:
+        for n in range(0, 4):
+            args = [ARGS[(i * 3 + n) % len(ARGS)] for i in range(n)]
+            cases.append(("pos", nm, tuple(args), nm + "(" + ", ".join(args) + ")"))
+        params = [f"p{i}={NAMED_VALS[i % len(NAMED_VALS)]}" for i in range(2)]
+        cases.append(("named", nm, tuple(params), nm + "(" + ", ".join(params) + ")"))
     # mixing positional and named is a syntax error
     for nm in ["f.g", "concat"]:
         cases.append(("mixed", nm, (), nm + "(1, x=2)"))
